@@ -187,3 +187,26 @@ Print Assumptions C14_terminates.
 Print Assumptions C14_repair_preserves_trees.
 Print Assumptions C14_pinned_cycle_never_returns.
 Print Assumptions C14_isort_is_a_sort.
+
+(* ================================================================ VerifyHash itself, TRANSLATED
+   ipld/ipldbindcode/methods.go:VerifyHash is re-translated from /repo's working tree on every check
+   (Generated/GoLiteC14.v; DESIGN.md section 10a) and is the model's verify_hash, with the two checksum functions as
+   oracles equal to the model's crc64 / fnv1a: nil exactly when one of the two checksums is the recorded hash. *)
+Require YF.GoLite YF.Generated.GoLiteC14 YF.GoLiteC14_Verify.
+Import ZArith String.
+
+Theorem C14_translated_VerifyHash_is_verify_hash : forall fuel (d : list Z) (h : N),
+  GoLite.call GoLiteC14.prog GoLiteC14_Verify.hash_ext fuel "VerifyHash"%string [GoLite.VInts d; GoLite.VInt (Z.of_N h)] =
+  GoLite.RRet (if verify_hash (map Z.to_N d) h then GoLite.VNil else GoLite.VErr "fmt.Errorf: data hash mismatch"%string).
+Proof. exact (GoLiteC14_Verify.VerifyHash_is_verify_hash GoLiteC14.prog GoLiteC14.prog_VerifyHash). Qed.
+
+Example C14_translated_VerifyHash_runs :
+  GoLite.call GoLiteC14.prog GoLiteC14_Verify.hash_ext 1 "VerifyHash"%string
+    [GoLite.VInts [1; 2; 3]%Z; GoLite.VInt (Z.of_N (crc64 [1; 2; 3]%N))] = GoLite.RRet GoLite.VNil /\
+  GoLite.call GoLiteC14.prog GoLiteC14_Verify.hash_ext 1 "VerifyHash"%string
+    [GoLite.VInts [1; 2; 3]%Z; GoLite.VInt (Z.of_N (fnv1a [1; 2; 3]%N))] = GoLite.RRet GoLite.VNil /\
+  GoLite.call GoLiteC14.prog GoLiteC14_Verify.hash_ext 1 "VerifyHash"%string
+    [GoLite.VInts [1; 2; 3]%Z; GoLite.VInt 7%Z] = GoLite.RRet (GoLite.VErr "fmt.Errorf: data hash mismatch"%string).
+Proof. vm_compute. repeat split; reflexivity. Qed.
+
+Print Assumptions C14_translated_VerifyHash_is_verify_hash.
